@@ -11,14 +11,14 @@ TECH = "deterministic simulation with fault injection (seeded search over schedu
 CHECKS = {
     "C05": {
         "level": "exploration",
-        "text": "Seeded histories: db create on generated directories, then repeated create/reindex/reindex <paths>/day changes, every step a real forked zorg process under a simulated clock. Oracles after the first create: every changed line explained as a ZID insertion, index == recompiled files field by field, ZIDs unique; after every later step: no file byte and no index entry changed. Exploration is the right level: the input/history space is unbounded and only sampled.",
+        "text": "Seeded histories: db create on generated directories, then repeated create/reindex/reindex <paths>/no-op editor sessions/day changes (incl. the clock being set back and midnight striking inside a command), every step a real forked zorg process under a simulated clock. Oracles after the first create: every changed line explained as a ZID insertion, index == recompiled files field by field, ZIDs unique; after every later step: no file byte and no index entry changed. Exploration is the right level: the input/history space is unbounded and only sampled.",
         "ref": "DESIGN.md section 5 (C05)",
         "note": "Trusted: zorg's compiler as a reader of pages (that is C01/C02), SQLite, the ANTLR runtime. Known findings are listed in known_findings.json.",
         "technique": TECH + "; fault-free index-history profile with restarts, day changes and dirent-order variation",
     },
     "C06": {
         "level": "exploration",
-        "text": "Seeded edit histories (simulated user: edit/add/delete/move notes, add/delete/rename pages, header and section edits, zorg's own file rename / note move, edit sessions through the editor stub) interleaved with db reindex (with and without paths) and day changes, ending with a plain reindex; reference model = db create on a copy of the final files; oracle = canonical index dumps equal + a panel of queries answers identically.",
+        "text": "Seeded edit histories (simulated user: edit/add/delete/move notes, add/delete/rename pages, header and section edits, zorg's own file rename / note move, edit sessions through the editor stub) interleaved with db reindex (with and without paths), day changes, clock faults (midnight inside a command, clock set back) and pages that leave and come back unchanged, ending with a plain reindex; reference model = db create on a copy of the final files; oracle = canonical index dumps equal + a fixed 21-query panel and 5 seeded queries answer identically.",
         "ref": "DESIGN.md section 5 (C06)",
         "note": "Trusted: db create as the reference (its own agreement with the files is C05), SQLite, the query executor as a reader.",
         "technique": TECH + "; refinement of incremental reindex against a from-scratch rebuild reference over generated histories",
@@ -46,14 +46,14 @@ CHECKS = {
     },
     "C11": {
         "level": "exploration",
-        "text": "index-history profile with day changes as the essential fault: rounds of user edits and reindex (with/without paths, or edit sessions) over several simulated days, each followed by an immediate second reindex. An independent stamp model (previous index rows x recompiled files x hash map) predicts exactly which notes must be stamped; oracle checks both directions of the iff, the exact first-line rewrite, byte-identity of everything else, file/index agreement and quiescence of the second reindex.",
+        "text": "index-history profile with day changes as the essential fault: rounds of user edits and reindex (with/without paths, or edit sessions) over several simulated days (forwards, backwards, and with midnight striking inside a reindex), each followed by an immediate second reindex. An independent stamp model (previous index rows x recompiled files x hash map) predicts exactly which notes must be stamped; oracle checks both directions of the iff, the exact first-line rewrite, byte-identity of everything else, file/index agreement and quiescence of the second reindex.",
         "ref": "DESIGN.md section 5 (C11)",
         "note": "Trusted: the compiler as reader; the hash map file as the definition of 'processed page'.",
         "technique": TECH + "; multi-day clock histories against an independent stamp-set model",
     },
     "C13": {
         "level": "fault_enumeration",
-        "text": "Crash sweep: for each sampled (world, command) the golden run's external effects (file writes, creates, unlinks, renames, mkdirs, database commits) are enumerated by a syscall-level tap, and EVERY boundary is decided by killing a real forked zorg process there (os._exit, no unwinding) and re-running the command; thorough adds torn-empty and torn-prefix variants of every file write. Oracle after the rerun: completes without error, index == recompiled files, every note has its ZID in the file, no ZID lost or duplicated, no user text lost, a further reindex is a no-op.",
+        "text": "Crash sweep: for each sampled (world, command) the golden run's external effects (file writes, creates, unlinks, renames, mkdirs, database commits) are enumerated by a syscall-level tap, and EVERY boundary is decided by killing a real forked zorg process there (os._exit, no unwinding) and re-running the command; torn-empty and torn-prefix variants of file writes (all of them in thorough, two in half of the quick worlds), user edits between kill and rerun at a quarter of the crash points, and in thorough a second kill during the rerun. Oracle after the rerun: completes without error, index == recompiled files, every note has its ZID in the file, no ZID lost or duplicated, no user text lost, a further reindex is a no-op.",
         "ref": "DESIGN.md section 5 (C13)",
         "note": "Within a sampled world the crash points are enumerated completely; worlds and commands are sampled. SQLite's atomic commit is trusted.",
         "technique": TECH + "; exhaustive crash-point enumeration per sampled world with torn-write variants",
